@@ -271,6 +271,26 @@ func (e *Engine) absRef(base Val) string {
 // slices and maps it is handed; those locations get arbitrary new contents.
 func (e *Engine) havocArgs(st *State, args []Val) {
 	for _, a := range args {
+		// a closure handed to code outside the repository may be run there any number of times: the captured
+		// variables it writes and the heap locations it stores to get arbitrary contents (retry.Do(func() { x, err = ... }))
+		cl := a
+		if a.K == kTerm {
+			if cv, ok := e.closureRev[a.T]; ok {
+				cl = cv
+			}
+		}
+		if cl.K == kClosure && cl.Fn != nil {
+			w := closureWrites(cl.Fn, map[*ssa.Function]bool{})
+			for j, b := range cl.Binds {
+				if w[j] {
+					e.havocArgs(st, []Val{b})
+				}
+			}
+			for h := range e.P.modset(e, cl.Fn) {
+				e.heapHavoc(st, h)
+			}
+			continue
+		}
 		switch a.K {
 		case kPtr:
 			p := a.P
